@@ -112,7 +112,7 @@ def run_tlc(item):
 
 def catalogue(tier, only=None):
     quick = tier == 'quick'
-    target, min_n, doublings, nested_n = (100000, 600, 2, 40) if quick else (300000, 2000, 3, 50)
+    target, min_n, doublings, nested_n = (80000, 600, 2, 40) if quick else (300000, 2000, 3, 50)
     jitter = (SEED * 37) % 13
     calls, prims = [], []
 
@@ -138,6 +138,20 @@ def catalogue(tier, only=None):
                 add('dump', fam, api)
     for fam in U.DUMP_ALL:
         add('dump', fam, 'dump_all')
+    # customised applications: user Loader / Dumper subclasses with registered resolvers, constructors, representers,
+    # and the full / unsafe classes (harness/c20_util.py make_app, APP_LOAD, APP_DUMP)
+    for fam, (gen, apis) in U.APP_LOAD.items():
+        for api in apis:
+            add('load', fam, api)
+    for fam, (gen, kw, apis) in U.APP_DUMP.items():
+        for api in apis:
+            add('dump', fam, api)
+    for fam in (U.APP_ALSO_LOAD[:4] if quick else U.APP_ALSO_LOAD):
+        add('load', fam, 'app_load')
+        add('load', fam, 'unsafe_load')
+    for fam in (U.APP_ALSO_DUMP[:4] if quick else U.APP_ALSO_DUMP):
+        add('dump', fam, 'app_dump')
+        add('dump', fam, 'unsafe_dump')
     for fam in U.TEXT_FED:                       # a growing node in every structural position, and pairs of structures that
         add('dump', fam, 'emit_text')            # grow together, fed to the emitter / serializer as events / nodes
         if not quick or fam.startswith('first_key') or fam in U.PAIR_TEXT:
@@ -261,7 +275,8 @@ def main(tier, replay=None):
     worst.sort(reverse=True)
     v.cov = {'states': states, 'transitions': trans, 'exhaustive': True,
              'traces_validated_against_impl': len(traces), 'ratio_records_judged': nratio, 'primitive_bound_records_judged': nprim,
-             'load_families': len(U.LOAD), 'dump_families': len(U.DUMP) + len(U.DUMP_ALL) + len(U.TEXT_FED),
+             'load_families': len(U.LOAD) + len(U.APP_LOAD),
+             'dump_families': len(U.DUMP) + len(U.DUMP_ALL) + len(U.TEXT_FED) + len(U.APP_DUMP),
              'distinct_nontrivial': len({(t['family'], t['api']) for t in recs}),
              'rule': 'one record per (family, api): call counts at n, 2n, 4n%s under sys.setprofile judged by Trace_Work.tla '
                      '(H_LinearWork, eps = 15%%); primitive lengths (token queue, simple-key table, reader buffer, emitter '
